@@ -12,4 +12,18 @@ if [ "$1" = "C07" ]; then
   # the free-running data-race pass of C07 needs the race-detector build of the same sources
   go build -race -tags verif -o bin/verif-race ./cmd/verif 2>> bin/build.log || rm -f bin/verif-race
 fi
-exec ./bin/verif check "$1" "${2:-${VERIF_TIER:-quick}}"
+mkdir -p replays
+log="replays/$1-run.log"
+./bin/verif check "$1" "${2:-${VERIF_TIER:-quick}}" 2> "$log.err" | tee "$log"
+code=${PIPESTATUS[0]}
+if [ "$code" != "0" ] && [ "$code" != "1" ]; then
+  # the checker process itself died (Go fatal error / unrecovered panic / killed) while exercising the library:
+  # that is reported as a violation, with the crash output as the artefact - it is never silently dropped
+  tail -c 20000 "$log.err" > "replays/$1-crash.log"
+  echo "check.sh: bin/verif ended with status $code; last lines of its error output:"
+  tail -n 15 "$log.err"
+  echo "VIOLATION property=$1 replay=$(pwd)/replays/$1-crash.log"
+  exit 1
+fi
+cat "$log.err" >&2
+exit "$code"
